@@ -47,11 +47,11 @@ PROPS = {
                 rule="every callback state of runs: immutability, equality with the maxiter=nit run, restart continuation; non-trivial = >=2 callback states; distinct by problem seed",
                 explanation="theorem C07_snapshot_is_result (prefix lemma on the driver model) + C07_callback_inert; aliasing is checked on the implementation by the harness",
                 assumptions=COMMON_ASSUME),
-    "C08": dict(monitor=K, level="proof", corr=["cauchy", "fcauchy"],
+    "C08": dict(monitor=K, level="proof", corr=["cauchy", "fcauchy", "driver:kern"],
                 rule="structural patterns (position x gradient sign x side) exhaustive for n<=2 (quick) / sampled n=3, random n<=10 with 0..10 pairs; non-trivial = a variable on a bound with outward gradient and >=1 breakpoint passed",
                 explanation="theorems on the exact (Q) Cauchy model: breakpoint order, on-path, pinned/feasible; tolerance correspondence with get_cauchy_point; first-local-minimiser clause checked against a dense brute-force oracle",
                 assumptions=COMMON_ASSUME + ["rounding inside BLAS/LAPACK is not modelled (exact rational model, tolerance comparison)"]),
-    "C09": dict(monitor=K, level="proof", corr=["subspace", "fsubspace"],
+    "C09": dict(monitor=K, level="proof", corr=["subspace", "fsubspace", "driver:kern"],
                 rule="same inputs as C08 pushed through get_freev + subspace_minimization; non-trivial = some but not all variables free",
                 explanation="partial: structure theorems (fixed stay, feasible and maximal alpha*, conditional decrease) on the exact model; exact-minimiser link explored against a dense oracle",
                 assumptions=COMMON_ASSUME),
